@@ -19,7 +19,10 @@ MANIFEST = {
             "precedence of `x!`, `x?`, `x?:d` against unary/binary operators (the default is a unary expression), "
             "command-style `f! a, b` / `f? a`, the CallExpr{Fun: ErrWrapExpr} rewrite in compileCallExpr — is covered "
             "by no theorem, only by the harness family `errwrap_surface` (minimal-parenthesis printing by the "
-            "documented precedence, command style, regression inputs corpus/C03) judged by the documented-expansion oracle.",
+            "documented precedence, command style, regression inputs corpus/C03) judged by the documented-expansion oracle.  "
+            "Also HARNESS-ONLY: operands other than `f(args)` — `f!`/`f?`/`f?:d` without parentheses (auto-call), "
+            "method values `c.get!`, field/index chains, call results `mk()()!` (family `errwrap_operand`; the model "
+            "treats the operand as the zero-argument function it delegates to).",
     "note": "trusted: Lean kernel + propext/Classical.choice/Quot.sound; M4's Go semantics; qiniu/x/errors.NewFrame "
             "modelled as 'wraps; Unwrap gives inner; Code/Func recorded' (file/line not modelled); gogen's inline "
             "closure read as the block it emits (the closing goto/label is a jump to the next statement).",
@@ -34,7 +37,8 @@ RULE = ("generated scenarios: callees with 0/1/2 values + error that log each ca
         "operand); `!` in 7 positions with and without failure; `?:` with effectful/nested defaults; surface syntax: 60% of "
         "the scenarios are printed with minimal parentheses by the documented precedence (`x()?:d OP y`, `OP x()!`, "
         "`-f()?`, negative/probe/nested defaults, errwrap inside index, slice literal and call arguments), `f! a` / "
-        "`f? a` in command style; 2 fixed regression scenarios (corpus/C03); 6 compile "
+        "`f? a` in command style; operands without argument list (identifier, method value, field/index chain, "
+        "call result); 2 fixed regression scenarios (corpus/C03); 6 compile "
         "probes; non-trivial = distinct scenario whose trace has >= 3 events")
 
 
